@@ -586,6 +586,11 @@ func (chs *ClientHelloSpec) UnmarshalJSON(jsonB []byte) error {
 		return err
 	}
 
+	// absent or null fields leave nil unmarshalers behind, which ClientHelloSpec() would dereference
+	if chsju.CipherSuites == nil || chsju.CompressionMethods == nil || chsju.Extensions == nil {
+		return errors.New("cipher_suites, compression_methods and extensions are required")
+	}
+
 	*chs = chsju.ClientHelloSpec()
 	return nil
 }
